@@ -41,8 +41,16 @@ type config struct {
 	// failingBase: the creator under test is Clean(fake base creator
 	// that may fail) instead of Shared(Clean(Root)).
 	failingBase bool
-	bounds      map[string]int
-	shards      int
+	// yield: every Unlock of a shim lock (the IdleInvoker's mutex) is
+	// followed by a scheduling point (mc.Scenario.YieldAfterUnlock), so
+	// that the window between dropping the lock and the next blocking
+	// operation / re-read of shared state interleaves with other threads.
+	yield bool
+	// preempt: thread switches away from an enabled thread cost one
+	// deviation (the default in this harness is PreemptFree).
+	preempt bool
+	bounds  map[string]int
+	shards  int
 }
 
 func scenario(c config) *mc.Scenario {
@@ -62,11 +70,13 @@ func scenario(c config) *mc.Scenario {
 		Bounds:   c.bounds,
 		// The search is unbounded (state pruning); faults and
 		// cancellations are bounded by the harness itself.
-		PreemptFree: true,
-		Shards:      c.shards,
+		PreemptFree:      !c.preempt,
+		YieldAfterUnlock: c.yield,
+		Shards:           c.shards,
 		Build: func(x *mc.X) {
 			w := newWorld(x, c.maxFaults, c.maxCancels, c.faultAt, c.quiet)
 			cur = w
+			w.relaxed = c.yield
 			idle := re_cleaner.NewIdleInvoker(w.clean)
 			var counter atomic.Uint64
 			creator := builder.NewSharedBuildDirectoryCreator(
@@ -365,6 +375,43 @@ var configs = []config{
 		faultAt:   opsAll,
 		maxFaults: 1, maxCancels: 1,
 		bounds: map[string]int{"quick": 0, "thorough": -1},
+	},
+	// --- Post-unlock windows (YieldAfterUnlock): a scheduling point after
+	// every Unlock of the IdleInvoker's mutex. A waiter that dropped the lock
+	// and has not yet parked in its select interleaves with the cleaner
+	// finishing (close(wakeup); i.wakeup = nil), with releases and with new
+	// acquisitions: state re-read after the Unlock, or a wake-up that is
+	// only delivered to threads already parked, becomes visible (lost
+	// wake-up = deadlock, violation of C12 and C14). No cancellations here:
+	// a thread parked between the Unlock and its select could be cancelled
+	// AND woken before it evaluates the select, and Go then picks one of the
+	// two ready cases at random (both legal, but the execution would no
+	// longer be a function of its choice list).
+	{
+		name: "yield-2users", c14: true, yield: true,
+		workers:   [][]action{{{nil}}},
+		runnerOps: []string{"CheckReadiness"},
+		faultAt:   append(append([]string{}, opsCleaner...), opsRunner...),
+		quiet:     quietDirs,
+		maxFaults: 1, maxCancels: 0, bounds: unbounded,
+	},
+	{
+		name: "yield-2workers", c14: true, yield: true,
+		workers:   [][]action{{{nil}}, {{nil}}},
+		faultAt:   opsCleaner,
+		quiet:     quietDirs,
+		maxFaults: 1, maxCancels: 0, bounds: unbounded,
+	},
+	{
+		// Three users and two calls per thread: thread switches away from
+		// an enabled thread cost a deviation here (bounded search).
+		name: "yield-3users-2calls", c14: true, yield: true, preempt: true,
+		workers:   [][]action{{{nil}, {nil}}, {{nil}}},
+		runnerOps: []string{"Run", "CheckReadiness"},
+		faultAt:   opsCleaner,
+		quiet:     quietDirs,
+		maxFaults: 1, maxCancels: 0,
+		bounds: map[string]int{"quick": 2, "thorough": 4},
 	},
 	// --- Everything at once: every operation a scheduling point.
 	{
